@@ -152,8 +152,11 @@ def _apply(x, case, pandas):
     if proj is not None:
         y = y[proj]
     if case.get("parent") == "add":
-        num = [c for c in (list(y.columns) if hasattr(y, "columns") else []) if c in ("i", "j", "f")]
-        y = (y[num] + 1) if num else y
+        if getattr(y, "ndim", 1) == 2:
+            num = [c for c in list(y.columns) if c in ("i", "j", "f")]
+            y = (y[num] + 1) if num else y
+        elif y.name in ("i", "j", "f"):
+            y = y + 1
     elif case.get("parent") == "len" and not pandas:
         pass
     return y
@@ -412,6 +415,10 @@ def run(ctx):
                 for flt in ([["i", ">", 3]], [["j", "==", 2]], [["s", "!=", "x"]], [["i", "in", [1, 2, 7]]], [["f", "<=", 2.0], ["i", "<", 9]]):
                     for p in (None, "f_gt", "s_eq", "i_le"):
                         cases.append({"mode": "query", "ds": ds, "reader": reader, "pred": p, "proj": None, "filters": flt})
+                    # metadata short-cuts (len / size) on top of user filters, projections and elementwise parents
+                    for proj in (None, ["i", "f"], "f"):
+                        for cd in (False, True):
+                            cases.append({"mode": "query", "ds": ds, "reader": reader, "pred": None, "proj": proj, "filters": flt, "parent": "len", "calc_div": cd})
                 if DATASETS[ds][2] in ("named", "range"):
                     cases.append({"mode": "query", "ds": ds, "reader": reader, "pred": "f_gt", "proj": ["f"], "index": "i"})
                     cases.append({"mode": "query", "ds": ds, "reader": reader, "pred": None, "proj": None, "index": False})
